@@ -1,4 +1,5 @@
 import H2V.Lemmas.ConnDrainPParked
+import H2V.Lemmas.ConnDrainPPushed
 /-
   ConnDrainP, part 13 — `DReach`: connection states reachable from a fresh connection by polls, handle calls,
   user calls on the connection and arbitrary transport events; `CInv` holds in all of them (`DReach.cinv`), hence
@@ -11,53 +12,53 @@ section
 variable {s : Streams} (h : SReach s)
 include h
 theorem SReach.cloneHandle  : SReach s.cloneHandle :=
-  h.step (.cloneHandle h.flow) (h.k.cloneHandle) (.cloneHandle s) (.cloneHandle) trivial rfl
+  h.step (h.k.cloneHandle) (.cloneHandle s) (.cloneHandle) trivial rfl
 theorem SReach.dropHandle  : SReach s.dropHandle :=
-  h.step (.dropHandle h.flow) (h.k.dropHandle) (.dropHandle s) (.dropHandle) trivial rfl
+  h.step (h.k.dropHandle) (.dropHandle s) (.dropHandle) trivial rfl
 theorem SReach.cloneStreamRef (k : Nat) : SReach (s.cloneStreamRef k) :=
-  h.step (.cloneStreamRef k h.flow) (h.k.cloneStreamRef k) (.cloneStreamRef s k) (.cloneStreamRef k) trivial rfl
+  h.step (h.k.cloneStreamRef k) (.cloneStreamRef s k) (.cloneStreamRef k) trivial rfl
 theorem SReach.dropStreamRef (k : Nat) : SReach (s.dropStreamRef k) :=
-  h.step (.dropStreamRef k h.flow) (h.k.dropStreamRef k) (.dropStreamRef s k) (.dropStreamRef k) trivial rfl
+  h.step (h.k.dropStreamRef k) (.dropStreamRef s k) (.dropStreamRef k) trivial rfl
 theorem SReach.sendRequest (b : Bool) (f : List Hpack.Field) (e : Bool) (p : Option Nat) : SReach (s.sendRequest b f e p).1 :=
-  h.step (.sendRequest b f e p h.flow) (h.k.sendRequest b f e p) (.sendRequest s b f e p) (.sendRequest b f e p) trivial rfl
+  h.step (h.k.sendRequest b f e p) (.sendRequest s b f e p) (.sendRequest b f e p) trivial rfl
 theorem SReach.pollPendingOpen (p : Option Nat) (t : String) : SReach (s.pollPendingOpen p t).1 :=
-  h.step (.pollPendingOpen p t h.flow) (h.k.pollPendingOpen p t) (.pollPendingOpen s p t) (.pollPendingOpen p t) trivial rfl
+  h.step (h.k.pollPendingOpen p t) (.pollPendingOpen s p t) (.pollPendingOpen p t) trivial rfl
 theorem SReach.nextIncoming  : SReach s.nextIncoming.1 :=
-  h.step (.nextIncoming h.flow) (h.k.nextIncoming) (.nextIncoming s) (.nextIncoming) trivial rfl
+  h.step (h.k.nextIncoming) (.nextIncoming s) (.nextIncoming) trivial rfl
 theorem SReach.recvTakeRequest (k : Nat) : SReach (s.recvTakeRequest k).1 :=
-  h.step (.recvTakeRequest k h.flow) (h.k.recvTakeRequest k) (.recvTakeRequest s k) (.recvTakeRequest k) trivial rfl
+  h.step (h.k.recvTakeRequest k) (.recvTakeRequest s k) (.recvTakeRequest k) trivial rfl
 theorem SReach.refSendResponse (k : Nat) (f : List Hpack.Field) (e : Bool) : SReach (s.refSendResponse k f e).1 :=
-  h.step (.refSendResponse k f e h.flow) (h.k.refSendResponse k f e) (.refSendResponse s k f e) (.refSendResponse k f e) trivial rfl
+  h.step (h.k.refSendResponse k f e) (.refSendResponse s k f e) (.refSendResponse k f e) trivial rfl
 theorem SReach.refSendInformationalHeaders (k : Nat) (f : List Hpack.Field) : SReach (s.refSendInformationalHeaders k f).1 :=
-  h.step (.refSendInformationalHeaders k f h.flow) (h.k.refSendInformationalHeaders k f) (.refSendInformationalHeaders s k f) (.refSendInformationalHeaders k f) trivial rfl
+  h.step (h.k.refSendInformationalHeaders k f) (.refSendInformationalHeaders s k f) (.refSendInformationalHeaders k f) trivial rfl
 theorem SReach.refSendPushPromise (k : Nat) (v : Bool) (f : List Hpack.Field) : SReach (s.refSendPushPromise k v f).1 :=
-  h.step (.refSendPushPromise k v f h.flow) (h.k.refSendPushPromise k v f) (.refSendPushPromise s k v f) (.refSendPushPromise k v f) trivial rfl
+  h.step (h.k.refSendPushPromise k v f) (.refSendPushPromise s k v f) (.refSendPushPromise k v f) trivial rfl
 theorem SReach.refSendData (k len : Nat) (e : Bool) : SReach (s.refSendData k len e).1 :=
-  h.step (.refSendData k len e h.flow) (h.k.refSendData k len e) (.refSendData s k len e) (.refSendData k len e) trivial rfl
+  h.step (h.k.refSendData k len e) (.refSendData s k len e) (.refSendData k len e) trivial rfl
 theorem SReach.refSendTrailers (k : Nat) (f : List Hpack.Field) : SReach (s.refSendTrailers k f).1 :=
-  h.step (.refSendTrailers k f h.flow) (h.k.refSendTrailers k f) (.refSendTrailers s k f) (.refSendTrailers k f) trivial rfl
+  h.step (h.k.refSendTrailers k f) (.refSendTrailers s k f) (.refSendTrailers k f) trivial rfl
 theorem SReach.refSendReset (k : Nat) (r : Reason) : SReach (s.refSendReset k r) :=
-  h.step (.refSendReset k r h.flow) (h.k.refSendReset k r) (.refSendReset s k r) (.refSendReset k r) trivial rfl
+  h.step (h.k.refSendReset k r) (.refSendReset s k r) (.refSendReset k r) trivial rfl
 theorem SReach.refReserveCapacity (k c : Nat) : SReach (s.refReserveCapacity k c) :=
-  h.step (.refReserveCapacity k c h.flow) (h.k.refReserveCapacity k c) (.refReserveCapacity s k c) (.refReserveCapacity k c) trivial rfl
+  h.step (h.k.refReserveCapacity k c) (.refReserveCapacity s k c) (.refReserveCapacity k c) trivial rfl
 theorem SReach.pollCapacity (k : Nat) (t : String) : SReach (s.pollCapacity k t).1 :=
-  h.step (.pollCapacity k t h.flow) (h.k.pollCapacity k t) (.pollCapacity s k t) (.pollCapacity k t) trivial rfl
+  h.step (h.k.pollCapacity k t) (.pollCapacity s k t) (.pollCapacity k t) trivial rfl
 theorem SReach.pollReset (k : Nat) (m : PollReset) (t : String) : SReach (s.pollReset k m t).1 :=
-  h.step (.pollReset k m t h.flow) (h.k.pollReset k m t) (.pollReset s k m t) (.pollReset k m t) trivial rfl
+  h.step (h.k.pollReset k m t) (.pollReset s k m t) (.pollReset k m t) trivial rfl
 theorem SReach.recvPollResponse (n k : Nat) (t : String) : SReach (Streams.recvPollResponse n s k t).1 :=
-  h.step (.recvPollResponse n k t h.flow) (KInv.recvPollResponse n h.k k t) (.recvPollResponse n s k t) (.recvPollResponse n k t) trivial rfl
+  h.step (KInv.recvPollResponse n h.k k t) (.recvPollResponse n s k t) (.recvPollResponse n k t) trivial rfl
 theorem SReach.recvPollInformational (k : Nat) (t : String) : SReach (s.recvPollInformational k t).1 :=
-  h.step (.recvPollInformational k t h.flow) (h.k.recvPollInformational k t) (.recvPollInformational s k t) (.recvPollInformational k t) trivial rfl
+  h.step (h.k.recvPollInformational k t) (.recvPollInformational s k t) (.recvPollInformational k t) trivial rfl
 theorem SReach.refPollData (k : Nat) (t : String) : SReach (s.refPollData k t).1 :=
-  h.step (.refPollData k t h.flow) (h.k.refPollData k t) (.refPollData s k t) (.refPollData k t) trivial rfl
+  h.step (h.k.refPollData k t) (.refPollData s k t) (.refPollData k t) trivial rfl
 theorem SReach.recvPollTrailers (k : Nat) (t : String) : SReach (s.recvPollTrailers k t).1 :=
-  h.step (.recvPollTrailers k t h.flow) (h.k.recvPollTrailers k t) (.recvPollTrailers s k t) (.recvPollTrailers k t) trivial rfl
+  h.step (h.k.recvPollTrailers k t) (.recvPollTrailers s k t) (.recvPollTrailers k t) trivial rfl
 theorem SReach.refReleaseCapacity (k c : Nat) : SReach (s.refReleaseCapacity k c).1 :=
-  h.step (.refReleaseCapacity k c h.flow) (h.k.refReleaseCapacity k c) (.refReleaseCapacity s k c) (.refReleaseCapacity k c) trivial rfl
+  h.step (h.k.refReleaseCapacity k c) (.refReleaseCapacity s k c) (.refReleaseCapacity k c) trivial rfl
 theorem SReach.refClearRecvBuffer (k : Nat) : SReach (s.refClearRecvBuffer k) :=
-  h.step (.refClearRecvBuffer k h.flow) (h.k.refClearRecvBuffer k) (.refClearRecvBuffer s k) (.refClearRecvBuffer k) trivial rfl
+  h.step (h.k.refClearRecvBuffer k) (.refClearRecvBuffer s k) (.refClearRecvBuffer k) trivial rfl
 theorem SReach.clearWakes : SReach { s with wakes := [] } :=
-  h.step (.clearWakes h.flow) (h.k.withWakes []) (.clearWakes s) (.clearWakes) trivial rfl
+  h.step (h.k.withWakes []) (.clearWakes s) (.clearWakes) trivial rfl
 end
 
 /-- the calls the user-side handles make on the stream layer (any arguments) -/
@@ -85,6 +86,7 @@ inductive HandleStep : Streams → Streams → Prop
   | recvPollTrailers (s : Streams) (k : Nat) (t : String) : HandleStep s (s.recvPollTrailers k t).1
   | refReleaseCapacity (s : Streams) (k c : Nat) : HandleStep s (s.refReleaseCapacity k c).1
   | refClearRecvBuffer (s : Streams) (k : Nat) : HandleStep s (s.refClearRecvBuffer k)
+  | refPollPushed (s : Streams) (k : Nat) (t : String) : HandleStep s (s.refPollPushed k t).1
   | clearWakes (s : Streams) : HandleStep s { s with wakes := [] }
   | recvEof (s : Streams) (b : Bool) : HandleStep s (s.recvEof b)
   | wake (s : Streams) (t : List String) : HandleStep s (s.wake t)
@@ -114,6 +116,7 @@ theorem SReach.handle {s s' : Streams} (h : SReach s) (hs : HandleStep s s') : S
   | recvPollTrailers k t => exact h.recvPollTrailers k t
   | refReleaseCapacity k c => exact h.refReleaseCapacity k c
   | refClearRecvBuffer k => exact h.refClearRecvBuffer k
+  | refPollPushed k t => exact h.refPollPushed k t
   | clearWakes => exact h.clearWakes
   | recvEof b => exact h.recvEof b
   | wake t => exact h.wake t
